@@ -76,7 +76,8 @@ ROOTS6 = ['act', 'bill', 'doc', 'statement', 'debateReport', 'judgment']
 ROOTS7 = ROOTS6 + ['debate']
 
 PLAIN = ['foo', 'bar', 'baz', 'the', 'quick', 'brown', 'fox', 'lorem', 'ipsum', 'x', 'y', '1', '2a', '(a)', '(i)',
-         '1.2.', 'A.', 'été', 'naïve', 'אבג', 'مرحبا', '日本', '\U0001F600', 'a-b', 'semi;colon', 'q?']
+         '1.2.', 'A.', 'été', 'naïve', 'אבג', 'مرحبا', '日本', '\U0001F600', 'a-b', 'semi;colon', 'q?',
+         '"q"', "it's", 'a<b', 'x&y', '&amp;', ']]>', '100%', "'", '"']
 
 class Words:
     """Supplies payload words; with unique=True every word is a fresh distinct token (for C03)."""
@@ -127,10 +128,14 @@ def gen_inline(rng, W, depth=0):
         elif r < 0.87:
             parts.append('{{IMG ' + rng.choice(['a.png', 'http://x/y.jpg']) + rng.choice(['', ' ' + W.words(1, 2)]) + '}}')
         elif r < 0.91:
-            parts.append('{{FOOTNOTE ' + rng.choice(['1', '2', '*', 'a']) + '}}')
+            parts.append('{{FOOTNOTE ' + rng.choice(['1', '2', '*', 'a', '1', '2', '12"', "'a'", 'a b', '<1>', '&']) + '}}')
         elif r < 0.96:
             tag = rng.choice(['abbr', 'def', 'em', 'inline', 'term', '-', '+'])
-            parts.append('{{' + tag + gen_attrs(rng, W, 0.4) + ' ' + gen_inline(rng, W, depth + 1) + '}}')
+            if rng.random() < 0.15:
+                # an inline without content (the element is empty; what follows it must stay)
+                parts.append('{{' + tag + rng.choice(['', ' ', gen_attrs(rng, W, 1.0)]) + '}}')
+            else:
+                parts.append('{{' + tag + gen_attrs(rng, W, 0.4) + ' ' + gen_inline(rng, W, depth + 1) + '}}')
         else:
             parts.append('\\' + rng.choice(['*', '/', '_', '{', '\\', 'P', 'x']) + W.word())
     return ' '.join(parts)
@@ -196,7 +201,7 @@ def gen_block(rng, W, ind, depth, out, allow_hier=True):
     elif r < 0.92:
         out.append(sp + 'LONGTITLE' + rng.choice(['', ' ' + gen_inline(rng, W)]))
     elif r < 0.96:
-        out.append(sp + 'FOOTNOTE ' + rng.choice(['1', '2', '*', 'a']))
+        out.append(sp + 'FOOTNOTE ' + rng.choice(['1', '2', '*', 'a', '1', '2', '12"', "'a'", 'a b', '<1>', '&']))
         gen_blocks(rng, W, ind + 1, depth + 1, out, rng.random() < 0.3, rng.randint(1, 2))
     else:
         # over-indented nested block
@@ -288,7 +293,7 @@ def mutate(rng, text, n=None):
             lines[i] = lines[i][:k] + rng.choice(INLINE_OPEN) + lines[i][k:]
         elif op == 7:
             k = rng.randint(0, len(lines[i]))
-            lines[i] = lines[i][:k] + rng.choice(['\\', '|', '{', '}', '.', '*', '  ', '‏', '́', '\U0001F600', 'é']) + lines[i][k:]
+            lines[i] = lines[i][:k] + rng.choice(['\\', '|', '{', '}', '.', '*', '  ', '‏', '́', '\U0001F600', 'é', '"', "'", '<', '>', '&', '%']) + lines[i][k:]
         elif op == 8: lines.insert(i, '')
         elif op == 9: lines.insert(i, ' ' * rng.randint(0, 6) + rng.choice(ALL_KEYWORDS) + rng.choice(['', ' 1', ' - h', ' x']))
         elif op == 10: lines[i] = lines[i] + rng.choice([' ', '  ', '\t'])
